@@ -2901,6 +2901,9 @@ def write_tsv(
 
 
 def _get_shacl_line(prefix: str, uri_prefix: str, pattern: str | None = None) -> str:
+    # backslashes have to be escaped inside turtle string literals
+    prefix = prefix.replace("\\", "\\\\")
+    uri_prefix = uri_prefix.replace("\\", "\\\\")
     line = f'    [ sh:prefix "{prefix}" ; sh:namespace "{uri_prefix}"^^xsd:anyURI '
     if pattern:
         pattern = pattern.replace("\\", "\\\\")
